@@ -35,6 +35,7 @@ From Soy Require Import Model.Bytes Model.Num Model.Values Model.Outcome Model.A
   Proofs.SafetyPure Proofs.SafetyProofs Proofs.SafetyEntry Proofs.SafetyFuel Proofs.SafetyCompile Proofs.SafetyMono
   Proofs.SafetyDepth Proofs.SafetyBytes Proofs.SafetyUser Proofs.SafetyExt Proofs.SafetyRefine Proofs.SafetyMarker.
 From Soy Require Import Model.JsGen Spec.SafetyJs Proofs.SafetyJsGen Proofs.SafetyJsFuel.
+From Soy Require Import Model.NumJson Spec.Json Proofs.MsgIdProofs Proofs.CodecJsonNum Proofs.NumJsonProofs.
 Open Scope N_scope.
 
 (* ================================================================== *)
@@ -626,6 +627,27 @@ Example C06_ex_js_height :
   jw_hmax body = 3%nat /\
   (exists cs, gen_file o 3 (b "f.soy") body = Ok cs) /\ gen_file o 2 (b "f.soy") body = OutOfFuel.
 Proof. vm_compute. split; [reflexivity|]. split; [eexists; reflexivity | reflexivity]. Qed.
+
+(* encoding/json's float layout (Model/NumJson.v, used by the extended model's |json): whatever the float and its
+   digits, the text consists of digits, sign, point and exponent mark; and each of the four layouts is one RFC 8259
+   number for every digit string without a leading zero.  (That the DIGITS are the shortest that read back as the
+   float is tied by correspondence only: op c06_fl_json against json.Marshal.) *)
+Theorem C06_json_float_chars :
+  forall x s, fl_to_json x = Some s -> Forall jnum_char s.
+Proof. exact fl_to_json_chars. Qed.
+Print Assumptions C06_json_float_chars.
+
+Theorem C06_json_float_layout_reads :
+  forall sign ds dp rest,
+    (sign = [] \/ sign = [45]) -> (exists d r, ds = d :: r /\ d <> 48) -> Forall is_digit_byte ds -> stop_num rest ->
+    exists v, json_number (fmt_json sign ds dp ++ rest) = Some (v, rest).
+Proof. exact fmt_json_reads. Qed.
+Print Assumptions C06_json_float_layout_reads.
+
+Example C06_ex_json_float_layouts :
+  fl_to_json (FFin 1 70) = Some (b "1.1805916207174113e+21") /\ fl_to_json (FFin 5 (-1)) = Some (b "2.5") /\
+  fl_to_json (FFin 1 (-20)) = Some (b "9.5367431640625e-7") /\ fl_to_json (FFin 25 2) = Some (b "100").
+Proof. vm_compute. repeat split; reflexivity. Qed.
 
 (* non-vacuity: a file with a template (let, foreach, call) is generated *)
 Example C06_ex_js_gen :
